@@ -50,8 +50,9 @@ def synth_behaviour(vec, bid, cfg):
     elif post == "track+offer":
         steps += [{"op": "addTrack", "who": "A", "kind": "video"}, {"op": "offerOnly", "who": "A"}]
     elif post.startswith("reoffer-"):
+        # every other re-offer is answered provisionally first (pranswer), then finally
         steps.append({"op": "remoteOffer", "who": "A", "offer": [concrete(s, post.split("-", 1)[1]) for s in vec["offer"]],
-                      "session": vec["place"]})
+                      "session": vec["place"], "follow": "pranswer" if bid % 2 else "answer+sld"})
     return {"id": bid, "config": cfg, "steps": steps, "vec": vec}
 
 
